@@ -26,13 +26,15 @@ structure Cfg where
   errTypeFixed : Bool := false   -- a custom error type as the last RESULT of a stage gives a usable helper
   errRecvFixed : Bool := false   -- `IsError` no longer accepts a type whose `Error` has a pointer receiver, used by value
   typedNilFixed : Bool := false  -- a nil custom error handed to join counts as "no error"
+  passFixed : Bool := false      -- join no longer passes on what its last stage returned beside its error
+  tupleFixed : Bool := false     -- fmap's multi-result form no longer reuses a user's deriveTuple of merely assignable types
   localsFixed : Bool := false    -- toerror's locals `success` / `out<i>` no longer collide with parameters of those names
   deriving DecidableEq, Repr, Inhabited
 
 def Cfg.current : Cfg := {}
 def Cfg.fixed : Cfg :=
   { zeroFixed := true, lhsFixed := true, errTypeFixed := true, errRecvFixed := true, typedNilFixed := true,
-    localsFixed := true }
+    localsFixed := true, passFixed := true, tupleFixed := true }
 
 /-! ### `derive.IsError`: which types stand where an `error` is expected
 
@@ -293,6 +295,21 @@ def joinFn {V E} (zeros : List V) (fn : Option (Thunk V E)) (err : Option E) : O
   | some e, _ => some { res := zeros, err := some e, log := [] }
   | none, some t => some t.invoke
   | none, none => none
+
+/-! ### the last stage's own values (round 7)
+
+`deriveJoin` ends in `return f()`: when `f` itself fails, whatever `f` returned beside its error is
+handed on (`joinE`, `bindE`, `joinFn` above are that code). A repaired join (`passFixed`) returns the
+zero values beside ANY error: -/
+
+def zeroOnError {V E} (pass : Bool) (zeros : List V) (r : Result V E) : Result V E :=
+  if pass && r.err.isSome then { r with res := zeros } else r
+
+def joinEC {V E} (pass : Bool) (zeros : List V) (f : Stage V E) (err : Option E) : Result V E :=
+  zeroOnError pass zeros (joinE zeros f err)
+
+def bindEC {V E} (pass : Bool) (zeros : List V) (g f : Stage V E) : Result V E :=
+  zeroOnError pass zeros (bindE zeros g f)
 
 /-! ### plugin/traverse -/
 
